@@ -234,32 +234,60 @@ func loopCompleteness(c *an.Ctx, root *ssa.Function, keyPrefix string) int {
 		}
 		_, pk := c.P.FileOf(fn.Pos())
 		ast.Inspect(syn, func(nd ast.Node) bool {
-			rs, ok := nd.(*ast.RangeStmt)
-			if !ok {
+			// a range loop, or the same traversal written as an index loop `for i := ..; i < len(X); ..`
+			var over ast.Expr
+			var body *ast.BlockStmt
+			switch x := nd.(type) {
+			case *ast.RangeStmt:
+				over, body = x.X, x.Body
+			case *ast.ForStmt:
+				if x.Cond != nil {
+					ast.Inspect(x.Cond, func(m ast.Node) bool {
+						if call, isCall := m.(*ast.CallExpr); isCall && len(call.Args) == 1 {
+							if id, isID := call.Fun.(*ast.Ident); isID && id.Name == "len" {
+								over = call.Args[0]
+							}
+						}
+						return true
+					})
+				}
+				body = x.Body
+			}
+			if over == nil || body == nil {
 				return true
 			}
 			n++
 			what := "?"
 			if pk != nil && pk.TypesInfo != nil {
-				if t := pk.TypesInfo.TypeOf(rs.X); t != nil {
+				if t := pk.TypesInfo.TypeOf(over); t != nil {
 					what = strings.ReplaceAll(t.String(), an.RepoMod+"/", "")
 				}
 			}
 			ord[what]++
 			leaves := false
-			if l := len(rs.Body.List); l > 0 {
-				switch rs.Body.List[l-1].(type) {
-				case *ast.ReturnStmt:
-					leaves = true
-				}
+			if l := len(body.List); l > 0 {
+				leaves = alwaysReturns(body.List[l-1])
 			}
 			key := fmt.Sprintf("%s|%s|range-over:%s#%d", keyPrefix, an.FuncName(root), what, ord[what])
-			c.Check(!leaves, key, "a traversal that callers rely on to visit every element must not leave its range loop unconditionally in the first iteration", c.P.Rel(rs.Pos()),
-				"the loop over "+types.ExprString(rs.X)+" ("+what+") returns at the end of its first iteration: only the first element is examined")
+			c.Check(!leaves, key, "a traversal that callers rely on to visit every element must not leave its range loop unconditionally in the first iteration", c.P.Rel(nd.Pos()),
+				"the loop over "+types.ExprString(over)+" ("+what+") returns at the end of its first iteration: only the first element is examined")
 			return true
 		})
 	}
 	return n
+}
+
+// alwaysReturns: the statement ends the function on every path through it.
+func alwaysReturns(s ast.Stmt) bool {
+	switch x := s.(type) {
+	case *ast.ReturnStmt:
+		return true
+	case *ast.BlockStmt:
+		return len(x.List) > 0 && alwaysReturns(x.List[len(x.List)-1])
+	case *ast.IfStmt:
+		return x.Else != nil && alwaysReturns(x.Body) && alwaysReturns(x.Else)
+	}
+	return false
 }
 
 // growsByOne: an integer argument of the recursive call is param+1.
@@ -361,10 +389,13 @@ func relayBound(c *an.Ctx, scc *an.SCC, edges []an.CallEdge) bool {
 		for _, b := range f.Blocks {
 			for _, in := range b.Instrs {
 				bo, ok := in.(*ssa.BinOp)
-				if !ok || !g.MatchValue(bo) || (bo.Op != token.GTR && bo.Op != token.GEQ) {
+				if !ok || !g.MatchValue(bo) {
 					continue
 				}
-				x := bo.X
+				x, _, nop, _, isCmp := an.BoundOperand(bo)
+				if !isCmp || (nop != token.GTR && nop != token.GEQ) {
+					continue
+				}
 				if cv, isC := x.(*ssa.Convert); isC {
 					x = cv.X
 				}
